@@ -3,6 +3,7 @@
 package engines
 
 import (
+	wrapping "github.com/hashicorp/go-kms-wrapping/v2"
 	"bytes"
 	"crypto/ecdh"
 	"crypto/ed25519"
@@ -110,7 +111,12 @@ func propC04(r *kernel.Run) {
 			}
 		}
 	}
-	regW := newAead(r, "registration")
+	var regW wrapping.Wrapper = newAead(r, "registration")
+	if tp.Draw(3) == 0 {
+		// a KMS-backed wrapper: it envelope-encrypts (the sealed blob carries a wrapped data key besides the ciphertext)
+		regW = wrapping.NewTestEnvelopeWrapper(tp.Bytes(32))
+		r.Count("cfg.registration_wrapper_envelope_kind", 1)
+	}
 	stKind := tp.Draw(4)
 	var state, params *structpb.Struct
 	state = mkStruct(r, stKind)
@@ -167,6 +173,17 @@ func propC04(r *kernel.Run) {
 		// the token may also be supplied only when fetching (credentials created earlier with their own nonce), as protocol.Dial does
 		createOpts = nil
 		r.Count("cfg.token_supplied_at_fetch_only", 1)
+	}
+	if (flow == "wrapper" || flow == "rewrapped") && tp.Draw(4) == 0 {
+		// the node's credentials were made for an activation token which is of no use any more (issued by a deployment
+		// that is gone); the node holds the registration wrapper and enrolls through it
+		old := NewWorld(r, "former-server", "inmem", false, false)
+		if _, oldTok, err := registration.CreateServerLedActivationToken(old.Ctx, old.Storage, &types.ServerLedRegistrationRequest{}); err == nil {
+			createOpts = append(createOpts, nodeenrollment.WithActivationToken(oldTok))
+			r.Count("cfg.wrapper_flow_with_token_derived_nonce", 1)
+		} else {
+			r.HarnessErr("former server's token: %v", err)
+		}
 	}
 	creds, err := types.NewNodeCredentials(nodeW.Ctx, nodeW.Storage, nodeW.Opts(createOpts...)...)
 	if err != nil {
@@ -242,6 +259,16 @@ func propC04(r *kernel.Run) {
 	lost := tp.Draw(3)
 	if flow == "token" {
 		lost = 0 // a token is single-use by design: a lost response cannot be retried
+	}
+	if flow != "token" && !weakRand && tp.Draw(5) == 0 {
+		// a passing storage trouble (one operation fails) during the node's first fetch: that attempt may fail, and once
+		// storage is well again the honest node fetches again and is served like after any lost response
+		srv.St.ArmAt(tp.Draw(6), Pick2(tp, simstore.FaultErr, simstore.FaultDeadline, simstore.FaultLostAck))
+		_, ferr := registration.FetchNodeCredentials(srv.Ctx, srv.Storage, req, fetchOpts...)
+		srv.St.ClearFaults()
+		if ferr != nil {
+			r.Count("fault.fetch_failed_under_passing_storage_error", 1)
+		}
 	}
 	var resp *types.FetchNodeCredentialsResponse
 	for try := 0; try <= lost; try++ {
